@@ -790,3 +790,117 @@ def rule_no_domain_mutation(db: ProgramDB) -> List[Instance]:
         out.append(inst("NO-DOMAIN-MUTATION", UNDECIDED, "", "positive-example",
                         "the rule did not fire on its built-in positive example"))
     return out
+
+
+# ---------------------------------------------------------------------------------- INTERNAL-ABANDON
+NEXT_EXCEPTIONS = {
+    "SetOf._evaluate__": "the selected expression is already bound in the row (guard `var._id_ in sol`): its evaluation is "
+                         "the identity and records no coverage",
+    "Set._evaluate__": "a conclusion assigns one value: the first row of a variable / mapping, which own no result cache",
+    "Add._evaluate__": "a conclusion assigns one value: the first row of a variable / mapping, which own no result cache",
+}
+
+
+def rule_internal_abandon(db: ProgramDB) -> List[Instance]:
+    """Engine code that stops consuming an evaluation stream before it is exhausted (break / return inside the loop over
+    it) leaves the producer's result caches claiming coverage they do not have; no public-entry rollback runs, because
+    the evaluation as a whole completes normally.  Such a site must invalidate the caches of the abandoned producer."""
+    from ..evalsites import site_model
+    out = []
+    cg = CallGraph(db)
+    inv = _invalidators(db, cg)
+    model = site_model(db)
+    unsafe = any(u for _, _, _, u in unsafe_coverage_sites(db))
+    n = 0
+    for fn in sorted(db.all_functions(), key=lambda f: f.qualname):
+        for loop in model.stream_loops(fn):
+            if not isinstance(loop, ast.For):
+                continue
+            # early exits that belong to this loop
+            exits = []
+
+            def visit(stmts, depth_loops):
+                for st in stmts:
+                    if isinstance(st, ast.Break) and depth_loops == 0:
+                        exits.append(st)
+                    elif isinstance(st, ast.Return):
+                        exits.append(st)
+                    elif isinstance(st, (ast.For, ast.While)):
+                        visit(st.body, depth_loops + 1)
+                        visit(st.orelse, depth_loops)
+                    elif isinstance(st, ast.If):
+                        visit(st.body, depth_loops); visit(st.orelse, depth_loops)
+                    elif isinstance(st, (ast.With,)):
+                        visit(st.body, depth_loops)
+                    elif isinstance(st, ast.Try):
+                        visit(st.body, depth_loops); visit(st.orelse, depth_loops); visit(st.finalbody, depth_loops)
+                        for h in st.handlers:
+                            visit(h.body, depth_loops)
+            visit(loop.body, 0)
+            if not exits:
+                continue
+            # the producer: receiver of the evaluation call the loop iterates
+            recv = None
+            it = loop.iter
+            cands = [it] + [d for d in local_defs(fn).get(it.id, []) if isinstance(d, ast.AST)] if isinstance(it, ast.Name) else [it]
+            for c in cands:
+                for x in ast.walk(c):
+                    if isinstance(x, ast.Call) and is_eval_method_name(call_attr(x)):
+                        recv = unparse(x.func.value)
+            cfg = CFG(fn)
+            for ex in exits:
+                n += 1
+                key = f"{fn.short}[{type(ex).__name__.lower()} out of `for {unparse(loop.target)} in {unparse(loop.iter)[:40]}`]"
+                nodes = [nd for nd in cfg.nodes if nd.ast is ex and not nd.region]
+                if len(exits) > 1:
+                    key += f"#{exits.index(ex) + 1}"
+                if not unsafe:
+                    out.append(inst("INTERNAL-ABANDON", HOLDS, fn, key, "no coverage is recorded before completion", line=ex.lineno))
+                    continue
+                if recv in ("self", None):
+                    out.append(inst("INTERNAL-ABANDON", INFO, fn, key, "the abandoned stream is the node's own delegate", line=ex.lineno))
+                    continue
+
+                def is_inv(nd: Node) -> bool:
+                    for c in _node_calls(nd):
+                        if isinstance(c.func, ast.Attribute) and c.func.attr in inv and unparse(c.func.value) == recv:
+                            return True
+                    return False
+                ok = True
+                for nd in nodes:
+                    # the invalidation may sit just before the break (dominating it in the same block) or after the loop
+                    before = any(is_inv(p) for p in _block_predecessors(cfg, nd))
+                    after = cfg.find_path(nd.id, _is_exit, kinds=("n",), blocked=is_inv) is None
+                    if not (before or after):
+                        ok = False
+                out.append(inst("INTERNAL-ABANDON", HOLDS if ok else VIOLATION, fn, key,
+                                f"the stream of `{recv}` is abandoned here and its result caches are invalidated "
+                                f"(`{recv}.{next(iter(inv), '?')}()`)" if ok else
+                                f"the stream of `{recv}` is abandoned here (line {ex.lineno}) while its operators have already "
+                                f"recorded coverage for rows they did not produce, and nothing invalidates them: a later "
+                                f"evaluation of that sub-expression (e.g. a sub-query shared with another query) silently "
+                                f"returns only the rows produced so far - with caching enabled only", line=ex.lineno))
+    for s in model.sites:
+        if s.consumer in ("next", "iter"):
+            why = NEXT_EXCEPTIONS.get(s.fn.short)
+            out.append(inst("INTERNAL-ABANDON", INFO if why else UNDECIDED, s.fn, f"{s.fn.short}[next({unparse(s.call)[:40]})]",
+                            f"takes only the first row of the stream; frozen exception: {why}" if why else
+                            "takes only the first row of an evaluation stream: not in the table of accepted exceptions",
+                            line=s.line))
+    return out
+
+
+def _block_predecessors(cfg: CFG, nd: Node) -> List[Node]:
+    """Nodes that straight-line precede nd (single normal predecessor chain, stopping at a branch)."""
+    out = []
+    cur = nd
+    for _ in range(6):
+        preds = [e for e in cfg.pred[cur.id] if e.kind == "n"]
+        if len(preds) != 1:
+            break
+        p = cfg.nodes[preds[0].src]
+        if p.kind != "stmt":
+            break
+        out.append(p)
+        cur = p
+    return out
